@@ -1972,3 +1972,135 @@ fire("c16-replacement-expression-unconverted", ["C16"], TFF,
      "            if isinstance(arg, MatchpyExpression):\n"
      "                pass\n",
      "T/matchpy/replacement/expression/binding-converted")
+
+
+# ---------------------------------------------------------------------------
+# rules added after the seeded changes (C11 TermCollector, C15 exact division,
+# C17 numpy normalisation, C19 fft wrappers, C20 closure loop)
+# ---------------------------------------------------------------------------
+
+COL = "pymbolic/mapper/collector.py"
+IUT = "pymbolic/imperative/utils.py"
+
+fire("c11-tc-coefficient-base-only", ["C11"], COL,
+     "            term = base**exp\n"
+     "            if self.get_dependencies(term) <= self.parameters:\n"
+     "                coefficients.append(term)",
+     "            term = base**exp\n"
+     "            if self.get_dependencies(term) <= self.parameters:\n"
+     "                coefficients.append(base)",
+     "P/TermCollector.split_term/coefficient-keeps-exponent")
+fire("c11-tc-term-exponent-one", ["C11"], COL,
+     "                cleaned_base2exp[base] = exp\n",
+     "                cleaned_base2exp[base] = 1\n",
+     "P/TermCollector.split_term/term-keeps-exponent")
+fire("c11-tc-exponents-overwrite", ["C11"], COL,
+     "                base2exp[mybase] += myexp\n",
+     "                base2exp[mybase] = myexp\n",
+     "P/TermCollector.split_term/exponents-add")
+fire("c11-tc-coefficients-overwrite", ["C11"], COL,
+     "            term2coeff[term] = term2coeff.get(term, 0) + coeff\n",
+     "            term2coeff[term] = coeff\n",
+     "P/TermCollector.map_sum/coefficients-added")
+fire("c11-tc-entry-dropped", ["C11"], COL,
+     "            if self.get_dependencies(term) <= self.parameters:\n"
+     "                coefficients.append(term)\n"
+     "            else:\n"
+     "                cleaned_base2exp[base] = exp\n",
+     "            if self.get_dependencies(term) <= self.parameters:\n"
+     "                coefficients.append(term)\n"
+     "            elif exp != 0:\n"
+     "                cleaned_base2exp[base] = exp\n",
+     "P/TermCollector.split_term/partition")
+silent_multi("c11-tc-renamed-locals", ["C11"], COL, [
+    ("        coefficients = []\n", "        coeffs = []\n"),
+    ("                coefficients.append(term)", "                coeffs.append(term)"),
+    ("pymbolic.flattened_product(coefficients))",
+     "pymbolic.flattened_product(coeffs))"),
+    ("        cleaned_base2exp = {}\n", "        kept = {}\n"),
+    ("                cleaned_base2exp[base] = exp\n",
+     "                kept[base] = exp\n"),
+    ("(base, exp) for base, exp in cleaned_base2exp.items())",
+     "(base, exp) for base, exp in kept.items())"),
+])
+silent("c11-tc-sum-table-renamed", ["C11"], COL,
+       "        term2coeff = {}\n"
+       "        for child in mysum.children:\n"
+       "            term, coeff = self.split_term(child)\n"
+       "            term2coeff[term] = term2coeff.get(term, 0) + coeff\n",
+       "        collected = {}\n"
+       "        for child in mysum.children:\n"
+       "            term, coeff = self.split_term(child)\n"
+       "            collected[term] = collected.get(term, 0) + coeff\n"
+       "        term2coeff = collected\n")
+
+fire("c15-gcd-without-rhs", ["C15"], ALG,
+     "            [a for a in mat[i] if a]\n"
+     "            +\n"
+     "            [a for a in rhs[i] if a]))",
+     "            [a for a in mat[i] if a]))",
+     "P/gaussian_elimination/exact-division")
+fire("c15-lcm-wrong-divisor", ["C15"], ALG,
+     "                i_fac = ell//mat[i, j]\n",
+     "                i_fac = ell//mat[u, i]\n",
+     "P/gaussian_elimination/exact-division")
+silent("c15-gcd-args-reordered", ["C15"], ALG,
+       "            [a for a in mat[i] if a]\n"
+       "            +\n"
+       "            [a for a in rhs[i] if a]))",
+       "            [a for a in rhs[i] if a]\n"
+       "            +\n"
+       "            [a for a in mat[i] if a]))")
+
+fire("c17-numpy-only-numbers", ["C17"], PHF,
+     "            if isinstance(expr, np.generic):",
+     "            if isinstance(expr, np.number):",
+     "T/digest/map_constant/numpy-normalised")
+silent("c17-numpy-explicit-tuple", ["C17"], PHF,
+       "            if isinstance(expr, np.generic):",
+       "            if isinstance(expr, (np.number, np.bool_)):")
+
+fire("c19-sym-fft-sign-dropped", ["C19"], ALG,
+     "            fft(wrap_intermediate(x), sign=sign,\n"
+     "                wrap_intermediate=wrap_intermediate))",
+     "            fft(wrap_intermediate(x),\n"
+     "                wrap_intermediate=wrap_intermediate))",
+     "P/sym_fft/options-reach-fft")
+fire("c19-ifft-forward-sign", ["C19"], ALG,
+     "    return (1/len(x))*fft(x, sign=-1, wrap_intermediate=wrap_intermediate,",
+     "    return (1/len(x))*fft(x, sign=1, wrap_intermediate=wrap_intermediate,",
+     "P/ifft")
+fire("c19-ifft-drops-custom-np", ["C19"], ALG,
+     "            complex_dtype=complex_dtype, custom_np=custom_np)\n\n\ndef sym_fft",
+     "            complex_dtype=complex_dtype)\n\n\ndef sym_fft",
+     "P/ifft/options-reach-fft")
+silent("c19-sym-fft-positional-sign", ["C19"], ALG,
+       "            fft(wrap_intermediate(x), sign=sign,\n"
+       "                wrap_intermediate=wrap_intermediate))",
+       "            fft(wrap_intermediate(x), sign,\n"
+       "                wrap_intermediate=wrap_intermediate))")
+
+fire("c20-closure-flag-overwritten", ["C20"], IUT,
+     "                    if stmt_3 not in dep_graph.get(stmt_1, set()):\n"
+     "                        changed_something = True\n"
+     "                        dep_graph[stmt_1].add(stmt_3)\n",
+     "                    new = stmt_3 not in dep_graph.get(stmt_1, set())\n"
+     "                    changed_something = new\n"
+     "                    if new:\n"
+     "                        dep_graph[stmt_1].add(stmt_3)\n",
+     "P/closure/flag-monotone")
+fire("c20-closure-flag-never-reset", ["C20"], IUT,
+     "    while True:\n        changed_something = False\n\n        for stmt_1",
+     "    changed_something = False\n    while True:\n        for stmt_1",
+     "P/closure/")
+fire("c20-closure-single-sweep", ["C20"], IUT,
+     "        if not changed_something:\n            break\n",
+     "        break\n",
+     "P/closure/")
+silent("c20-closure-update-form", ["C20"], IUT,
+       "                    if stmt_3 not in dep_graph.get(stmt_1, set()):\n"
+       "                        changed_something = True\n"
+       "                        dep_graph[stmt_1].add(stmt_3)\n",
+       "                    if stmt_3 not in dep_graph.get(stmt_1, set()):\n"
+       "                        changed_something = True\n"
+       "                        dep_graph[stmt_1] |= {stmt_3}\n")
